@@ -1235,3 +1235,60 @@ package analysis
 //@   loop 7: modifies map s.allSchemas, map s.allOfs, map s.references.schemas, map s.references.responses, map s.references.parameters, map s.references.items, map s.references.headerItems, map s.references.parameterItems, map s.references.allRefs, map s.references.pathItems, map s.patterns.parameters, map s.patterns.headers, map s.patterns.items, map s.patterns.schemas, map s.patterns.allPatterns, map s.enums.parameters, map s.enums.headers, map s.enums.items, map s.enums.schemas, map s.enums.allEnums
 //@   loop 8: modifies map s.allSchemas, map s.allOfs, map s.references.schemas, map s.references.responses, map s.references.parameters, map s.references.items, map s.references.headerItems, map s.references.parameterItems, map s.references.allRefs, map s.references.pathItems, map s.patterns.parameters, map s.patterns.headers, map s.patterns.items, map s.patterns.schemas, map s.patterns.allPatterns, map s.enums.parameters, map s.enums.headers, map s.enums.items, map s.enums.schemas, map s.enums.allEnums
 //@   loop 9: modifies map s.allSchemas, map s.allOfs, map s.references.schemas, map s.references.responses, map s.references.parameters, map s.references.items, map s.references.headerItems, map s.references.parameterItems, map s.references.allRefs, map s.references.pathItems, map s.patterns.parameters, map s.patterns.headers, map s.patterns.items, map s.patterns.schemas, map s.patterns.allPatterns, map s.enums.parameters, map s.enums.headers, map s.enums.items, map s.enums.schemas, map s.enums.allEnums
+
+// ---- lookups against the operations index (C14); wfOps(s) is established by initialize (ops aspect)
+
+//@ func (s *Spec) AllPaths()
+//@   modifies nothing
+//@   ensures s != nil ==> result == docPaths(s)
+
+//@ func (s *Spec) Operations()
+//@   requires s != nil
+//@   modifies nothing
+//@   ensures result == s.operations
+
+//@ func (s *Spec) OperationFor(method, path)
+//@   requires s != nil && wfOps(s)
+//@   modifies nothing
+//@   ensures result1 <==> (path in dom(docPaths(s)) && opAtM(docPaths(s)[path], strings.ToUpper(method)) != nil)
+//@   ensures result1 ==> result == opAtM(docPaths(s)[path], strings.ToUpper(method))
+//@   ensures !result1 ==> result == nil
+
+//@ func (s *Spec) OperationForName(operationID)
+//@   requires s != nil && wfOps(s)
+//@   modifies nothing
+//@   ensures result3 ==> result2 != nil && result2.ID == operationID && result1 in dom(docPaths(s)) && opAtM(docPaths(s)[result1], result) == result2
+//@   ensures !result3 ==> result2 == nil && (forall M string :: forall p string :: inOpsIdx(s, M, p) ==> s.operations[M][p].ID != operationID)
+//@   loop 1: invariant forall M in seen :: forall p in dom(s.operations[M]) :: s.operations[M][p].ID != operationID
+//@   loop 2: invariant forall M in seen1 :: M != key1 ==> forall p in dom(s.operations[M]) :: s.operations[M][p].ID != operationID
+//@   loop 2: invariant forall p in seen :: s.operations[key1][p].ID != operationID
+//@   loop 2: invariant key1 in dom(s.operations) && pathItem == s.operations[key1]
+
+//@ func (s *Spec) structMapKeys(mp)
+//@   modifies nothing
+//@   ensures len(mp) == 0 ==> isnil(result)
+//@   ensures forall k string :: inStrs(result, k) <==> k in dom(mp)
+//@   ensures forall i in 0..len(result) :: forall j in 0..len(result) :: i != j ==> result[i] != result[j]
+//@   loop 1: invariant forall k string :: inStrs(result, k) <==> k in seen
+//@   loop 1: invariant forall i in 0..len(result) :: forall j in 0..len(result) :: i != j ==> result[i] != result[j]
+//@   loop 1: invariant forall k in seen :: k in dom(mp)
+
+//@ func (s *Spec) ConsumesFor(operation)
+//@   requires s != nil && s.spec != nil && operation != nil
+//@   modifies nothing
+//@   ensures forall k string :: inStrs(result, k) <==> (if len(operation.Consumes) == 0 then inStrs(s.spec.Consumes, k) else inStrs(operation.Consumes, k))
+//@   ensures forall i in 0..len(result) :: forall j in 0..len(result) :: i != j ==> result[i] != result[j]
+//@   loop 1: modifies map cons
+//@   loop 1: invariant cons != nil && fresh(cons) && (forall k string :: (k in dom(cons)) <==> (exists i in 0..idx :: s.spec.Consumes[i] == k))
+//@   loop 2: modifies map cons
+//@   loop 2: invariant cons != nil && fresh(cons) && (forall k string :: (k in dom(cons)) <==> (exists i in 0..idx :: operation.Consumes[i] == k))
+
+//@ func (s *Spec) ProducesFor(operation)
+//@   requires s != nil && s.spec != nil && operation != nil
+//@   modifies nothing
+//@   ensures forall k string :: inStrs(result, k) <==> (if len(operation.Produces) == 0 then inStrs(s.spec.Produces, k) else inStrs(operation.Produces, k))
+//@   ensures forall i in 0..len(result) :: forall j in 0..len(result) :: i != j ==> result[i] != result[j]
+//@   loop 1: modifies map prod
+//@   loop 1: invariant prod != nil && fresh(prod) && (forall k string :: (k in dom(prod)) <==> (exists i in 0..idx :: s.spec.Produces[i] == k))
+//@   loop 2: modifies map prod
+//@   loop 2: invariant prod != nil && fresh(prod) && (forall k string :: (k in dom(prod)) <==> (exists i in 0..idx :: operation.Produces[i] == k))
